@@ -70,11 +70,23 @@ def tree(rng, depth, size=32):
             c0 = rng.choice(REG_RECIPES + FRESH)
             s1, s2, s3 = r_int(rng.choice(CONSTS)), r_int(rng.choice(CONSTS)), rng.choice(REG_RECIPES)
             args += rng.choice([[['?', c0, s1, s2], ['?', c0, s1, s3]], [['?', c0, s2, s1], ['?', c0, s3, s1]], [['?', c0, s1, s3], ['?', c0, s1, s2]]])
-        elif y < 0.50:
+        elif y < 0.47:
+            # conditions that differ only in the stop of a nested slice (a size-neutral position)
+            src = rng.choice(REG_RECIPES + FRESH)
+            st = rng.choice([0, 8])
+            c1, c2 = ['S', src, st, st + 8], ['S', src, st, st + 16]
+            s1, s2 = rng.choice(REG_RECIPES), rng.choice(REG_RECIPES)
+            args += rng.choice([[['?', c1, s1, s2], ['?', c2, s1, s2]], [['?', c2, s1, s2], ['?', c1, s1, s2]]])
+        elif y < 0.50 and op == '+':
+            # the same negated term more than once (cancellation must not depend on the grouping)
+            a = rng.choice(REG_RECIPES + FRESH)
+            na = ['O', '-', [a]]
+            args += rng.choice([[na, na, a], [a, na, na], [na, a, na], [na, na]])
+        elif y < 0.56:
             # a term and its negation as siblings (sort keys must tell them apart)
             a = rng.choice(REG_RECIPES + FRESH) if rng.random() < 0.6 else tree(rng, depth - 2)
             args += rng.choice([[a, ['O', '-', [a]]], [['O', '-', [a]], a]])
-        elif y < 0.62 and op in ('|', '&', '^', '+'):
+        elif y < 0.66 and op in ('|', '&', '^', '+'):
             # memory operands that differ only by their segment, plus a duplicate
             addr = rng.choice(REG_RECIPES) if rng.random() < 0.6 else ['O', '+', [rng.choice(REG_RECIPES), r_int(rng.choice([4, 8]))]]
             segs = [['D', sname, 16, False, True] for sname in rng.sample(['ds', 'es', 'ss', 'fs'], 2)]
